@@ -22,6 +22,28 @@ Verdict run(const Ctx & x, const Case & c)
     if (got.size() != d.layers.size()) {
         return "walking get_backend() reaches " + std::to_string(got.size()) + " layers, the stack has " + std::to_string(d.layers.size());
     }
+    if (arr >= 1) {
+        // the array layer's length: product of the extents (row-major) / round_pow2(max extent)^N (curves)
+        const model::Layer & O = d.layers[arr - 1];
+        uint64_t want = 1, mx = 1;
+        for (uint64_t e : c.ext) {
+            want *= e;
+            mx = std::max(mx, e);
+        }
+        if (O.kind != "strided") {
+            uint64_t side = 1;
+            while (side < mx) {
+                side *= 2;
+            }
+            want = 1;
+            for (size_t a = 0; a < c.ext.size(); ++a) {
+                want *= side;
+            }
+        }
+        if (got[arr].size() != 1 || got[arr][0] != want) {
+            return "the array layer reports length " + std::to_string(got[arr].empty() ? 0 : got[arr][0]) + ", it was constructed with " + std::to_string(want) + " cells";
+        }
+    }
     for (size_t k = 0; k < got.size(); ++k) {
         if (int(k) == arr) {
             continue;
@@ -88,7 +110,7 @@ ModeReg reg("C17", [](const zoo::Factory & f) {
     add_inst(
         ctx->inst,
         [ctx] {
-            auto g = rc::gen::exec([ctx] { return draw_case(ctx->d, 3); });
+            auto g = rc::gen::exec([ctx] { return draw_case(ctx->d, 3, true); });
             rc_campaign<Case>(ctx->inst, tier(100, 2000), 100, g, [ctx](const Case & c) { return run(*ctx, c); });
         },
         [ctx](const json & j) { return run(*ctx, Case::from_json(j)); }
